@@ -406,6 +406,43 @@ theorem e2e_idx2 {α β : Type} (P : List (Option Nat × Nat × (α × β)) → 
   obtain ⟨l2, a2, b2⟩ := idx2Calls_iter_of_log xs ys w hw
   exact ⟨⟨l1, a1, b1 ▸ hto⟩, ⟨l2, a2, b2 ▸ hit⟩⟩
 
+/-! ### the slice drivers (`rolling_custom_to` / `rolling_custom_iter`) -/
+
+/-- the slices a closure receives when the regenerated `rolling_custom_to` log is replayed on a series -/
+def customCallsOfLogTo {α : Type} (xs : List α) (log : List (Nat × (Nat × Nat))) : List (List α) :=
+  log.map fun ev => xs.extract ev.2.1 ev.2.2
+
+def customCallsOfLogIter {α : Type} (xs : List α) (log : List (Nat × Nat)) : List (List α) :=
+  log.map fun ev => xs.extract ev.1 ev.2
+
+theorem customCalls_to_of_log {α : Type} (xs : List α) (w : Nat) (hw : 1 ≤ w) :
+    ∃ log, GenDrv.rolling_custom_to.run xs.length w = some log ∧ customCalls .to xs w = customCallsOfLogTo xs log := by
+  refine ⟨_, rolling_custom_to_eq xs.length w (Or.inl hw), ?_⟩
+  unfold customCalls customCallsOfLogTo Shape.idx
+  rw [List.map_map]
+  apply List.map_congr_left
+  rintro ⟨s, e⟩ _
+  rfl
+
+theorem customCalls_iter_of_log {α : Type} (xs : List α) (w : Nat) (hw : 1 ≤ w) :
+    ∃ log, GenDrv.rolling_custom_iter.run xs.length w = some log ∧ customCalls .iter xs w = customCallsOfLogIter xs log := by
+  refine ⟨_, rolling_custom_iter_eq xs.length w hw, ?_⟩
+  unfold customCalls customCallsOfLogIter Shape.idx
+  rw [List.map_map]
+  apply List.map_congr_left
+  rintro ⟨s, e⟩ _
+  rfl
+
+def E2ECustom {α : Type} (P : List (List α) → Prop) (xs : List α) (w : Nat) : Prop :=
+  (∃ log, GenDrv.rolling_custom_to.run xs.length w = some log ∧ P (customCallsOfLogTo xs log)) ∧
+  (∃ log, GenDrv.rolling_custom_iter.run xs.length w = some log ∧ P (customCallsOfLogIter xs log))
+
+theorem e2e_custom {α : Type} (P : List (List α) → Prop) (xs : List α) (w : Nat) (hw : 1 ≤ w)
+    (hto : P (customCalls .to xs w)) (hit : P (customCalls .iter xs w)) : E2ECustom P xs w := by
+  obtain ⟨l1, a1, b1⟩ := customCalls_to_of_log xs w hw
+  obtain ⟨l2, a2, b2⟩ := customCalls_iter_of_log xs w hw
+  exact ⟨⟨l1, a1, b1 ▸ hto⟩, ⟨l2, a2, b2 ▸ hit⟩⟩
+
 /-! ## the backend overrides run the `*_to` drivers on a buffer of `self.len()` slots -/
 
 /-- every override of a rolling method in backends_impl/vec.rs and ndarray.rs binds `len` to
